@@ -33,7 +33,7 @@ def c03(ctx, replay):
     off, on = ctx.path("c03off.ndjson"), ctx.path("c03on.ndjson")
     recv_rows(ctx, "c03", n, False, off)
     recv_rows(ctx, "c03", n, True, on)
-    chunks = "whole,one" if ctx.quick() else "whole,one,rand"
+    chunks = "whole,one,split2" if ctx.quick() else "whole,one,split2,rand"
     modes = "ct,nct" if ctx.quick() else "ct,nct,c_nct,s_nct"
     sizes = "120-130,4085-4105,8180-8200" if ctx.quick() else "120-130,4080-4112,8176-8208,12270-12300,32755-32780,65525-65545"
     rep = ctx.drive("recv", ["-letters", lp, "-rows-off", off, "-rows-on", on, "-seed", ctx.seed, "-chunks", chunks, "-modes-on", modes, "-sizes", sizes,
@@ -113,7 +113,7 @@ SIG_C16 = {"second-close-frame", "data-frame-after-close-frame"}
 SIG_C02 = {"masking-wrong-for-role", "rsv2-or-rsv3-set", "length-not-minimally-encoded", "unknown-opcode",
            "fragmented-control-frame", "control-frame-longer-than-125", "rsv1-on-control-frame", "close-body-not-sendable",
            "rsv1-on-continuation", "rsv1-without-negotiated-deflate", "new-message-inside-message", "continuation-without-message",
-           "header-undecodable", "length-beyond-2^31", "mask-key-not-refreshed", "second-close-frame", "data-frame-after-close-frame",
+           "header-undecodable", "length-beyond-2^31", "mask-key-not-refreshed", "mask-key-reused", "second-close-frame", "data-frame-after-close-frame",
            "peer-received-corrupt-message"}
 SIG_C15 = {"ping-returned-nil-without-its-own-pong", "pong-matched-against-wrong-ping-set", "pong-does-not-echo-next-ping"}
 SIG_C20 = {"library-goroutine-alive-when-close-returned", "close-returned-with-connection-open", "timeoutloop-exited-with-connection-open",
@@ -123,7 +123,7 @@ SIG_C10 = {"timeoutloop-received-other-write-context", "write-context-handoff-ne
            "context-of-successful-call-closed-the-connection", "timeoutloop-fired-unarmed-read-context", "timeoutloop-fired-unarmed-write-context"}
 SIG_C09 = {"close-needed-the-15s-goroutine-backstop", "conc-actors-pending", "conc-reader-pending", "conc-peer-no-eof",
            "close-took-too-long", "closenow-returned-error"}
-SIG_C06 = {"close-returned-with-connection-open", "unsendable-close-code-marshalled", "invalid-close-code-accepted",
+SIG_C06 = {"close-returned-with-connection-open", "received-close-echoed-with-another-code", "unsendable-close-code-marshalled", "invalid-close-code-accepted",
            "close-frame-after-marshal-error", "write-succeeded-after-close", "ping-succeeded-after-close",
            "read-succeeded-after-close", "close-after-close-not-ErrClosed", "closenow-after-close-not-ErrClosed"}
 
@@ -439,6 +439,14 @@ def c07(ctx, replay):
     ctx.absorb(rep)
     rej, _ = trace_validate(ctx, "TracePool", "TracePool.cfg", trace, name="TracePool")
     absorb_rejections(ctx, rej, "TracePool", trace, only=SIG_C07_TRACE)
+    # the wsjson byte-buffer pool is shared by all connections too: values up to >1 MiB read on concurrent connections,
+    # every read followed by another read on the same goroutine, results compared with encoding/json on the same bytes
+    jrows, jtrace = ctx.path("json0.ndjson"), ctx.path("jpool.ndjson")
+    ctx.tlc("WSJsonRows", "Rows.cfg", env={"OUT": jrows, "DEPTH": 0 if ctx.quick() else 1}, workers=4, name="json-shapes(pool)")
+    rep = ctx.drive("wsjson", ["-rows", jrows, "-seed", ctx.seed, "-pool-trace", jtrace], timeout=2400)
+    ctx.absorb(rep)
+    rej, _ = trace_validate(ctx, "TracePool", "TracePool.cfg", jtrace, name="TracePool(bpool)")
+    absorb_rejections(ctx, rej, "TracePool", jtrace, only=SIG_C07_TRACE)
     if not ctx.quick():
         repo_tests_traced(ctx, set(), only_pool=SIG_C07_TRACE)
         # pool events of the concurrent campaign (many connections in flight at once), under the same ownership rules
